@@ -684,4 +684,29 @@ class C:
 
     def n(self): pass
 ''',
+# 40 --------------------------------------------------------------------------------------------------------------
+'''\
+x = 1 if(a)else 2
+y = [p]if q else r
+z = 's'if x else'y'
+w = not(a)and(b)or(c)
+v = (a)in(b)
+u = [i for i in(j)if(i)]
+t = lambda:(x)
+s = f(a)if(b)else g(c)if(d)else(e)
+def g():
+    return(a)
+def h():
+    yield(b)
+    x = yield(c)
+    await_ = not[1]or{2}and(3)
+assert(a),(b)
+del(q)
+for(i)in(j):pass
+while(k):break
+if(m):pass
+elif(n):pass
+r = (a)if(b)else(c)
+k = (a)is(b)is not(c)
+''',
 ]
